@@ -149,4 +149,22 @@ PROPS = {
         "segment_names": ['FF', 'B', 'K', 'c08'],
         "modelled_not_verified": ["futures crate: FuturesUnordered, mpsc channels, join/select (the plumbing is checked by comparing sent and received event sequences)", "the async executor (hand-polled by the harness) and Instant / thread::sleep (clock readings are environment inputs of the model)", "HashMap iteration order at finish_all (model: any order inside the rule group and the feature group)"],
     },
+    "C11": {
+        "module": "Cuke.Props.C11",
+        "namespace": "Cuke.C11",
+        "families": [("norm.run", 2500, 150000)],
+        "modelled_not_verified": [
+            "linked-hash-map crate: modelled as association lists (insert on an existing key replaces and moves to the back; entry().or_insert keeps the position)",
+            "Metadata (timestamps) dropped; panics (`no Feature`, `no Rule`, unreachable!) are the model's `none`",
+        ],
+    },
+    "C16": {
+        "module": "Cuke.Props.C16",
+        "namespace": "Cuke.C16",
+        "families": [("outline.expand", 3000, 200000)],
+        "modelled_not_verified": [
+            "gherkin's own parsing (the parsed AST is the request)",
+            "the regex crate's implementation of `<([^>\\s]+)>` with replace_all: the model's scanner (leftmost, non-overlapping, Unicode White_Space) is tied to it by the differential",
+        ],
+    },
 }
